@@ -88,5 +88,148 @@ def g_edges(tier):
   return obs
 
 
+FF = "island:_flood_fill"
+
+
+def _ff_contract():
+  """contract of island._flood_fill (one thread = one world W): DESIGN.md 12.13"""
+  from wpv.hoare import Hoare
+
+  a, b, s_ = z3.Ints("a b s")
+  W = z3.Int("tid0")
+  L = lambda S, x: S.a("labels_in", W, x)
+  T = lambda S, x, y: S.a("tree_tree_in", W, x, y)
+  K = lambda S, x: S.a("stack_in", W, x)
+  inr = lambda S, *xs: z3.And(*[z3.And(x >= 0, x < S["ntree"]) for x in xs])
+  onstack = lambda S, x: z3.Exists([s_], z3.And(s_ >= 0, s_ < S["nstack"], K(S, s_) == x))
+  has_edge = lambda S, x: z3.Exists([b], z3.And(inr(S, b), T(S, x, b) != 0))
+
+  def pre(S):
+    # established by the host: flood_fill fills the labels with -1; _tree_edges marks symmetrically (group tree_edges)
+    return z3.And(S["ntree"] >= 0, z3.ForAll([a], z3.Implies(inr(S, a), L(S, a) == -1)), z3.ForAll([a, b], z3.Implies(z3.And(inr(S, a, b), T(S, a, b) != 0), T(S, b, a) != 0)))
+
+  closed = lambda S: z3.ForAll([a, b], z3.Implies(z3.And(inr(S, a, b), L(S, a) != -1, T(S, a, b) != 0), L(S, b) == L(S, a)))
+  only_touched = lambda S: z3.ForAll([a], z3.Implies(z3.And(inr(S, a), L(S, a) != -1), has_edge(S, a)))
+
+  def outer(S, E):
+    return z3.And(
+      S["nisland"] >= 0,
+      closed(S),
+      only_touched(S),
+      z3.ForAll([a, b], z3.Implies(z3.And(inr(S, a, b), a < S["i"], T(S, a, b) != 0), L(S, a) != -1)),
+      z3.ForAll([a], z3.Implies(inr(S, a), z3.Or(L(S, a) == -1, z3.And(L(S, a) >= 0, L(S, a) < S["nisland"])))),
+    )
+
+  def edge(S, E):
+    return z3.And(S["has_edge"] == 0, z3.ForAll([b], z3.Implies(z3.And(b >= 0, b < S["j"]), T(S, S["i"], b) == 0)))
+
+  def dfs(S, E):
+    Lc, i = S["nisland"], S["i"]
+    return z3.And(
+      S["nstack"] >= 0,
+      z3.ForAll([s_], z3.Implies(z3.And(s_ >= 0, s_ < S["nstack"]), z3.And(inr(S, K(S, s_)), has_edge(S, K(S, s_))))),
+      only_touched(S),
+      z3.ForAll([a, b], z3.Implies(z3.And(inr(S, a, b), L(S, a) != -1, L(S, a) != Lc, T(S, a, b) != 0), L(S, b) == L(S, a))),
+      z3.ForAll([a, b], z3.Implies(z3.And(inr(S, a, b), L(S, a) == Lc, T(S, a, b) != 0), z3.Or(L(S, b) == Lc, onstack(S, b)))),
+      z3.ForAll([a], z3.Implies(inr(S, a), z3.Or(L(S, a) == -1, z3.And(L(S, a) >= 0, L(S, a) <= Lc)))),
+      z3.Or(L(S, i) == Lc, onstack(S, i)),
+      z3.ForAll([a], z3.Implies(inr(S, a), z3.If(L(E, a) != -1, L(S, a) == L(E, a), z3.Or(L(S, a) == -1, L(S, a) == Lc)))),
+    )
+
+  def push(S, E):
+    v = S["v"]
+    return z3.And(
+      S["nstack"] >= E["nstack"],
+      z3.ForAll([s_], z3.Implies(z3.And(s_ >= 0, s_ < E["nstack"]), K(S, s_) == K(E, s_))),
+      z3.ForAll([s_], z3.Implies(z3.And(s_ >= 0, s_ < S["nstack"]), z3.And(inr(S, K(S, s_)), has_edge(S, K(S, s_))))),
+      z3.ForAll([b], z3.Implies(z3.And(b >= 0, b < S["neighbor"], b < S["ntree"], T(S, v, b) != 0), z3.Or(L(S, b) != -1, onstack(S, b)))),
+    )
+
+  def post(S, E):
+    ni = S.a("nisland_out", W)
+    return z3.And(
+      closed(S),
+      z3.ForAll([a, b], z3.Implies(z3.And(inr(S, a, b), T(S, a, b) != 0), L(S, a) != -1)),
+      only_touched(S),
+      z3.ForAll([a], z3.Implies(inr(S, a), z3.Or(L(S, a) == -1, z3.And(L(S, a) >= 0, L(S, a) < ni)))),
+    )
+
+  c2 = lambda v: z3.K(z3.IntSort(), z3.K(z3.IntSort(), z3.IntVal(v)))
+  c3 = lambda v: z3.K(z3.IntSort(), c2(v))
+  arr = lambda S, n: S.arrs[S.root[n]]
+  w0 = lambda S, E: [S["ntree"] == 2, W == 0, S["i"] == 0, S["nisland"] == 0, arr(S, "labels_in") == c2(-1), arr(S, "tree_tree_in") == c3(1), arr(S, "stack_in") == c2(0)]
+  w1 = lambda S, E: [S["j"] == 0]
+  w2 = lambda S, E: [S["nstack"] == 1, arr(S, "labels_in") == c2(-1), arr(S, "stack_in") == c2(0)]
+  w3 = lambda S, E: [S["neighbor"] == 0, S["nstack"] == 0, arr(S, "stack_in") == c2(0)]
+  H = Hoare(FF, pre=pre, post=post, invariants={0: outer, 1: edge, 2: dfs, 3: push}, witnesses={0: w0, 1: w1, 2: w2, 3: w3}, aliases=[("labels_in", "tree_island_out"), ("stack_in", "stack_out")], meta={"search": ["VENV_PYTHON", "scenarios/c28_flood_fill_search.py"], "goal": "flood fill: trees joined by an edge get the same island; every tree with an edge gets one; trees without an edge get none; labels lie in [0, nisland)"})
+  return H, None, (lambda S: [S["ntree"] == 2, W == 0, arr(S, "labels_in") == c2(-1), arr(S, "tree_tree_in") == c3(1)])
+
+
+def g_flood_fill(tier):
+  """(F) island._flood_fill by invariants (wpv/hoare.py) + the launch site establishes the contract's assumptions"""
+  import ast
+
+  from wpv import launchsites
+
+  H, _, hint = _ff_contract()
+  obs = list(H.run())
+  obs.append(H.canary(hint(H.entry)))
+  info = extract.get_func(FF)
+  nloops = len(H.loops)
+  obs.append(Result(oid="_flood_fill#structure", status="discharged" if (nloops == 4 and H.nexits >= 1) else "undecided", kind="structure", func=FF, backend="analysis", reason="" if nloops == 4 else f"{nloops} loops: the sidecar invariants are keyed by loop ordinal 0..3", meta={"function": FF, "goal": "the kernel has the four loops the invariants are written for", "infeasible_branches_pruned": H.pruned}))
+  # launch site: aliasing and initialisation the contract assumes
+  host = extract.get_func("island:flood_fill")
+  sites = [s for s in launchsites.all_sites() if s.kernel == FF]
+  ok_alias = len(sites) == 1 and sites[0].binding.get("labels_in") == sites[0].binding.get("tree_island_out") and sites[0].binding.get("stack_in") == sites[0].binding.get("stack_out") and sites[0].binding.get("labels_in") != sites[0].binding.get("stack_in")
+  obs.append(Result(oid="flood_fill#launch.aliases_as_in_the_contract", status="discharged" if ok_alias else "violated", kind="host", func="island:flood_fill", backend="launch-site analysis", meta={"function": "island:flood_fill", "goal": "labels_in / tree_island_out are one array and stack_in / stack_out another, as the kernel contract assumes", "binding": {k: v for k, v in (sites[0].binding.items() if sites else [])}}))
+  lab = sites[0].binding.get("labels_in") if sites else None
+  filled = False
+  for st in host.node.body:
+    if isinstance(st, ast.Expr) and isinstance(st.value, ast.Call) and ast.unparse(st.value.func) == f"{lab}.fill_" and [ast.unparse(x) for x in st.value.args] == ["-1"]:
+      filled = True
+    if any(isinstance(n, ast.Call) and ast.unparse(n.func) == "wp.launch" for n in ast.walk(st)):
+      break
+  obs.append(Result(oid="flood_fill#launch.labels_start_at_minus_one", status="discharged" if filled else "violated", kind="host", func="island:flood_fill", backend="host analysis", meta={"function": "island:flood_fill", "goal": "the label array is filled with -1 before the kernel runs (precondition of the kernel contract)"}))
+  dimok = bool(sites) and sites[0].dim.strip() == "d.nworld"
+  obs.append(Result(oid="flood_fill#launch.one_thread_per_world", status="discharged" if dimok else "violated", kind="host", func="island:flood_fill", backend="launch-site analysis", meta={"function": "island:flood_fill", "goal": "one thread per world (the contract is per thread over its own world's rows)"}))
+  return obs
+
+
+SS = "island:_island_scan_sizes"
+
+
+def g_scan_sizes(tier):
+  """(S) island._island_scan_sizes: the island offsets are the exclusive prefix sums of the per-island counts (stated as
+  the recurrence adr[0] = 0, adr[k] = adr[k-1] + count[k-1]), nidof is the total, and the counts are reset to 0"""
+  from wpv.hoare import Hoare
+
+  k = z3.Int("k")
+  W = z3.Int("tid0")
+  n = lambda S: S.a("nisland_in", W)
+
+  def rec(S, E, adr, cnt, upto):
+    return z3.And(S.a(adr, W, 0) == 0, z3.ForAll([k], z3.Implies(z3.And(k >= 1, k < upto), S.a(adr, W, k) == S.a(adr, W, k - 1) + E.a(cnt, W, k - 1))))
+
+  pairs = (("island_idofadr_out", "island_nv_inout"), ("island_iefcadr_out", "island_nefc_inout"))
+  scan = lambda S, E: z3.And(*[rec(S, E, a_, c_, S["i"]) for a_, c_ in pairs])
+  reset = lambda S, E: z3.And(*[z3.ForAll([k], z3.Implies(z3.And(k >= 0, k < S["i"]), S.a(c_, W, k) == 0)) for _, c_ in pairs], *[rec(S, H.entry, a_, c_, n(S)) for a_, c_ in pairs])
+
+  def post(S, E):
+    full = z3.And(*[rec(S, E, a_, c_, n(S)) for a_, c_ in pairs], S.a("nidof_out", W) == S.a("island_idofadr_out", W, n(S) - 1) + E.a("island_nv_inout", W, n(S) - 1), *[z3.ForAll([k], z3.Implies(z3.And(k >= 0, k < n(S)), S.a(c_, W, k) == 0)) for _, c_ in pairs])
+    return z3.If(n(S) == 0, S.a("nidof_out", W) == 0, full)
+
+  c1 = lambda v: z3.K(z3.IntSort(), z3.IntVal(v))
+  c2 = lambda v: z3.K(z3.IntSort(), c1(v))
+  arr = lambda S, nm: S.arrs[S.root[nm]]
+  w0 = lambda S, E: [W == 0, arr(S, "nisland_in") == c1(3), S["i"] == 1, arr(S, "island_idofadr_out") == c2(0), arr(S, "island_iefcadr_out") == c2(0), arr(S, "island_nv_inout") == c2(0), arr(S, "island_nefc_inout") == c2(0)]
+  w1 = lambda S, E: [S["i"] == 0, arr(S, "island_nv_inout") == c2(0), arr(S, "island_nefc_inout") == c2(0)]
+  H = Hoare(SS, pre=lambda S: n(S) >= 0, post=post, invariants={0: scan, 1: reset}, witnesses={0: w0, 1: w1}, meta={"goal": "island offsets are the exclusive prefix sums of the per-island dof / constraint counts; nidof is the total; the counts are reset"})
+  obs = list(H.run("_island_scan_sizes"))
+  obs.append(H.canary([W == 0, arr(H.entry, "nisland_in") == c1(3)]))
+  ok = len(H.loops) == 2 and H.nexits == 2
+  obs.append(Result(oid="_island_scan_sizes#structure", status="discharged" if ok else "undecided", kind="structure", func=SS, backend="analysis", reason="" if ok else f"{len(H.loops)} loops, {H.nexits} exits", meta={"function": SS, "goal": "two loops (scan, reset) and two exits (no island / islands), as the invariants are written for"}))
+  return obs
+
+
 def groups(tier):
-  return [("tree_edges", g_edges)]
+  return [("tree_edges", g_edges), ("flood_fill", g_flood_fill), ("scan_sizes", g_scan_sizes)]
